@@ -20,21 +20,33 @@ _OUTSIDE = st.sampled_from([-1e-9, 1 + 1e-9, -0.5, 1.5, -1e-300, 1.0000000000000
 @st.composite
 def _cases(draw):
     n, m = draw(st.integers(0, 8)), draw(st.integers(0, 8))
-    dtype = draw(st.sampled_from(["float", "float", "float", "int"]))
-    if dtype == "int":
+    dtype = draw(st.sampled_from(["float", "float", "float", "int", "uint8", "bool", "float32"]))
+    if dtype in ("int", "uint8", "bool"):
         g = draw(st.lists(st.integers(0, 1), min_size=n, max_size=n))
         f = draw(st.lists(st.integers(0, 1), min_size=m, max_size=m))
+    elif dtype == "float32":
+        g = [k / 64 for k in draw(st.lists(st.integers(0, 64), min_size=n, max_size=n))]
+        f = [k / 64 for k in draw(st.lists(st.integers(0, 64), min_size=m, max_size=m))]
     else:
         g = draw(st.lists(_INSIDE, min_size=n, max_size=n))
         f = draw(st.lists(_INSIDE, min_size=m, max_size=m))
     bad = draw(st.sampled_from(["none", "none", "none", "genuine", "fraud"]))
+    if dtype == "bool":
+        bad = "none"
+    outside = _OUTSIDE if dtype == "float" else (st.sampled_from([2, 7, 255]) if dtype == "uint8" else
+                                                 st.sampled_from([-1, 2]) if dtype == "int" else
+                                                 st.sampled_from([-0.5, 1.5, 2.0, -1.0]))
     if bad == "genuine" and n:
-        g[draw(st.integers(0, n - 1))] = draw(_OUTSIDE) if dtype == "float" else draw(st.sampled_from([-1, 2]))
+        g[draw(st.integers(0, n - 1))] = draw(outside)
     if bad == "fraud" and m:
-        f[draw(st.integers(0, m - 1))] = draw(_OUTSIDE) if dtype == "float" else draw(st.sampled_from([-1, 2]))
+        f[draw(st.integers(0, m - 1))] = draw(outside)
+    # a missing (NaN) score somewhere must not hide an out-of-range one
+    nan_at = None
+    if dtype == "float" and draw(st.integers(0, 5)) == 0 and n + m > 0:
+        nan_at = draw(st.integers(0, n + m - 1))
     thr = draw(gen.shaped_thresholds([float(x) for x in g + f], shapes=[(), (3,), (2, 2), (0,)], mag=2.0))
     targets = draw(st.lists(gen.target_values([max(n, 1), max(m, 1), max(n + m, 1)]), min_size=1, max_size=4))
-    return dict(g=g, f=f, dtype=dtype, eg=draw(st.sampled_from([0, 0, 3, 40])),
+    return dict(g=g, f=f, dtype=dtype, nan_at=nan_at, eg=draw(st.sampled_from([0, 0, 3, 40])),
                 ef=draw(st.sampled_from([0, 0, 2, 25])), sc=draw(st.sampled_from(["genuine", "fraud"])),
                 sc_enum=draw(st.booleans()), thr=thr, targets=targets, order=draw(st.integers(0, 10**6)))
 
@@ -49,9 +61,27 @@ def check(case):
     from score_analysis.applications import DocLabel, FraudScores, binary_to_doc_label, doc_to_binary_label
 
     warnings.simplefilter("ignore")
-    dt = int if case["dtype"] == "int" else float
+    dt = {"int": int, "uint8": np.uint8, "bool": bool, "float32": np.float32}.get(case["dtype"], float)
     g, f = np.asarray(case["g"], dtype=dt), np.asarray(case["f"], dtype=dt)
     outside = any((x < 0) or (x > 1) for x in case["g"] + case["f"])
+    if case.get("nan_at") is not None:
+        k = case["nan_at"]
+        if k < len(g):
+            g[k] = np.nan
+        else:
+            f[k - len(g)] = np.nan
+        vals = [x for x in g.tolist() + f.tolist() if x == x]
+        outside = any((x < 0) or (x > 1) for x in vals)
+        try:
+            FraudScores(genuines=g, frauds=f, nb_easy_genuines=case["eg"], nb_easy_frauds=case["ef"],
+                        score_class=case["sc"])
+            raised = False
+        except ValueError:
+            raised = True
+        # whether a NaN alone is "outside [0,1]" is not stated: only the other direction is asserted
+        require(raised or not outside, "fraud:validation",
+                f"genuines={g.tolist()} frauds={f.tolist()}: accepted although a score lies outside [0,1]")
+        return dict(nontrivial=outside, labels=["with-nan"])
     sc_arg = DocLabel(case["sc"]) if case["sc_enum"] else case["sc"]
     ctx = f"genuines={case['g']} frauds={case['f']} score_class={case['sc']}"
     try:
@@ -103,6 +133,11 @@ def check(case):
     require(isinstance(fl, FraudScores) and fl == fs, "fraud:from-labels", ctx)
     # assignment through the setters reaches pos / neg
     fs2 = FraudScores(genuines=g, frauds=f, score_class=sc_arg)
+    if n + m_ >= 2 and len(set(map(float, case["g"] + case["f"]))) >= 2:
+        # queries before the assignment (anything they remember must not outlive it)
+        fs2.threshold_at_topr(0.5), fs2.threshold_at_tonr(0.5), fs2.threshold_at_metric(0.5, "topr")
+        if n and m_:
+            fs2.eer(), fs2.auc()
     newg = np.asarray([0.25, 0.75])
     fs2.genuines = newg
     fs2.frauds = newg[::-1]
@@ -118,6 +153,11 @@ def check(case):
                       getattr(ref2, "threshold_at_" + m)(np.asarray([0.3, 0.5]))), "fraud:setter-queries",
                 f"{ctx}: threshold_at_{m} after assignment through the setters")
     require(_same(np.asarray(fs2.eer()), np.asarray(ref2.eer())), "fraud:setter-queries", f"{ctx}: eer")
+    for q in (lambda o: o.threshold_at_topr(np.asarray([0.3, 0.6])), lambda o: o.threshold_at_tonr(0.4),
+              lambda o: np.concatenate([np.ravel(z) for z in o.threshold_at_metric(np.asarray([0.3, 0.6]), "topr")]),
+              lambda o: o.auc()):
+        require(_same(q(fs2), q(ref2)), "fraud:setter-queries",
+                f"{ctx}: a query after assignment through the setters differs from a fresh object")
     edge = any(float(x) in (0.0, 1.0) for x in case["g"] + case["f"])
     return dict(nontrivial=bool(n and m_ and edge), labels=["accepted", f"dtype:{case['dtype']}"])
 
